@@ -61,6 +61,13 @@ type FuncContract struct {
 	ChanInvs []*Clause // channel invariants: `chan <local>: invariant <expr over elem>` (CallName = the channel variable)
 }
 
+type NoPanicArg struct {
+	Callee string
+	Arg    int
+	File   string
+	Line   int
+}
+
 type GuardDecl struct {
 	PkgPath, Type, Field, Lock string
 	File                        string
@@ -107,6 +114,7 @@ type Contracts struct {
 	MayEncode  []string // function key prefixes that are allowed to do so (the key store and database mirrors)
 	Files   []string
 	Trusted []string // human readable list of assumptions
+	NoPanicArgs []NoPanicArg
 	Sources map[string]string // pkgpath -> file used
 }
 
@@ -513,6 +521,18 @@ func (cs *Contracts) parseLine(cur **FuncContract, t, path string, ln int, pkgPa
 		}
 		i := strings.LastIndex(f[0], ".")
 		cs.Guarded = append(cs.Guarded, GuardDecl{PkgPath: pkgPath, Type: f[0][:i], Field: f[0][i+1:], Lock: f[2], File: path, Line: ln})
+	case "nopanicarg":
+		// nopanicarg <callee> <k>: a function handed to <callee> as argument k runs where no panic is contained (e.g. the
+		// handler the recovery interceptor calls while recovering): it is verified panic-free wherever such a call occurs
+		f := strings.Fields(rest)
+		if len(f) != 2 {
+			return errf("nopanicarg <callee> <argument index>")
+		}
+		k := 0
+		if _, err := fmt.Sscan(f[1], &k); err != nil {
+			return errf("nopanicarg: bad index")
+		}
+		cs.NoPanicArgs = append(cs.NoPanicArgs, NoPanicArg{Callee: f[0], Arg: k, File: path, Line: ln})
 	case "sink":
 		for _, f := range strings.Fields(rest) {
 			cs.Sinks = append(cs.Sinks, f)
